@@ -379,4 +379,11 @@ def sequence_handlers_set():
 
 
 def build_extra():
-    return [sequence_handlers_set()]
+    # delayed count / step events of a MODE's logic block live in that mode's delay manager, so a hit scheduled just
+    # before the mode stops cannot land on the block of the mode's next run (C07's contract L5, restricted)
+    from . import C07
+    c07 = C07.build()
+    c07.pid = "C18m"
+    c07.replay_pid = "C07"
+    c07.only_verify = ["Mode._control_event_handler"]
+    return [sequence_handlers_set(), c07]
